@@ -498,7 +498,9 @@ void f_replace_string (void) {
                     }
                   else
                     {
-                      memcpy (dst2, src, plen);
+                      /* source and destination are the same string: they overlap
+                       * once a shorter replacement has been written */
+                      memmove (dst2, src, plen);
                       dst2 += plen;
                       src += plen;
                     }
@@ -508,7 +510,7 @@ void f_replace_string (void) {
                   *dst2++ = *src++;
                 }
             }
-          memcpy (dst2, src, slimit - src);
+          memmove (dst2, src, slimit - src);
           dst2 += (slimit - src);
           *dst2 = 0;
           arg->u.string = extend_string (dst1, dst2 - dst1);
